@@ -1444,3 +1444,37 @@ B('exhaust-remembers-through-a-default', ['C18'], ['C18-U1'],
 T('exhaust-reads-a-default-table', ['C18'],
   (I, "def exhaust(iterable: Iterable[Any]) -> None:\n", "def exhaust(iterable: Iterable[Any], _kinds: dict = {'lazy': 0}) -> None:  # type: ignore\n"),
   (I, "    deque(iterable, maxlen=0)\n", "    assert 'lazy' in _kinds\n    deque(iterable, maxlen=0)\n"))
+
+# --- benign wave 12 (deep restructurings done right) and their broken twins ---------------------------------------
+def _join_or_claim_edits(check_live: bool):
+    live = ("        if caching_loop.is_closed() or not caching_loop.is_running():\n            raise KeyError  # Invalidate loop\n" if check_live else
+            "        if caching_loop.is_closed():\n            raise KeyError  # Invalidate loop\n")
+    helper = ("def _join_or_claim(events: Any, key: Any) -> Any:\n    try:\n        caching_loop, event = events[key]\n" + live +
+              "    except KeyError:\n        caching_loop = aio.get_running_loop()\n        event = aio.Event()\n        events[key] = caching_loop, event\n"
+              "        return caching_loop, event, True\n    return caching_loop, event, False\n\n\n")
+    return [
+        (A, "@overload\ndef threadsafe_async_cache(\n    func: None = None,\n", helper + "@overload\ndef threadsafe_async_cache(\n    func: None = None,\n"),
+        (A, "                try:\n                    # Try to get the loop + event of the loop currently\n                    # caching the value\n                    caching_loop, event = events[key]\n"
+            "                    if (caching_loop.is_closed()\n                            or not caching_loop.is_running()):\n                        raise KeyError  # Invalidate loop\n"
+            "                except KeyError:\n                    # No existing event -> this task is going to cache\n                    # the value and provide an event for others to wait\n"
+            "                    caching_loop = aio.get_running_loop()\n                    event = aio.Event()\n                    events[key] = caching_loop, event\n                    do_caching = True\n"
+            "                else:\n                    do_caching = False  # Need to wait for other loop\n",
+            "                caching_loop, event, do_caching = _join_or_claim(events, key)\n"),
+    ]
+T('cache-claim-in-a-module-helper-returning-a-triple', ['C01', 'C05', 'C06', 'C14'], *_join_or_claim_edits(True))
+B('cache-claim-helper-forgets-stopped-loops', ['C05', 'C01'], ['C05-R7'], *_join_or_claim_edits(False))
+T('batcher-sentinel-lookups', ['C04', 'C09', 'C11', 'C15'],
+  (A, "_DONE = object()\n", "_DONE = object()\n_MISSING: Any = object()\n"),
+  (A, "        try:\n            fut = self._retention_cache[key]\n        except KeyError:\n            pass\n        else:\n            return await fut\n",
+      "        cached: Any = self._retention_cache.get(key, _MISSING)\n        if cached is not _MISSING:\n            fut = cached\n            return await fut\n"),
+  (A, "        try:\n            batcher = batchers[loop]\n        except KeyError:\n", "        batcher: Any = batchers.get(loop, _MISSING)\n        if batcher is _MISSING:\n"))
+B('batcher-sentinel-lookup-with-the-wrong-default', ['C11'], ['C11-R1'],
+  (A, "_DONE = object()\n", "_DONE = object()\n_MISSING: Any = object()\n"),
+  (A, "        try:\n            fut = self._retention_cache[key]\n        except KeyError:\n            pass\n        else:\n            return await fut\n",
+      "        cached: Any = self._retention_cache.get(key, None)\n        if cached is not _MISSING:\n            fut = cached\n            return await fut\n"))
+T('cache-ownership-flag-from-a-try', ['C01', 'C05', 'C06'],
+  (A, "                        if events.get(key, (None, None))[1] is event:\n                            del events[key]\n",
+      "                        try:\n                            still_ours = events[key][1] is event\n                        except KeyError:\n                            still_ours = False\n                        if still_ours:\n                            events.pop(key)\n"))
+B('cache-ownership-flag-defaults-to-true', ['C01', 'C06'], ['C01-R7', 'C06-R3'],
+  (A, "                        if events.get(key, (None, None))[1] is event:\n                            del events[key]\n",
+      "                        try:\n                            still_ours = events[key][1] is event\n                        except KeyError:\n                            still_ours = True\n                        if still_ours:\n                            events.pop(key)\n"))
